@@ -207,6 +207,9 @@ def expected(kind, el, e2, tol):
     return exact_equal(el, e2)
 
 
+NEAR = [False]
+
+
 def keyed(shells, bsort):
     out = []
     ties = False
@@ -214,6 +217,11 @@ def keyed(shells, bsort):
         rsq = bsort._spatial_extent(sh)
         if len(set(rsq)) != len(rsq) and len(sh['angular_momentum']) == 1:
             ties = True
+        # two contractions of (nearly) the same spatial extent - proportional ones, say: the order sort_shell gives them is decided by
+        # float noise, and compare pairs the contractions of two shells by that order
+        srt = sorted(rsq)
+        if len(sh['angular_momentum']) == 1 and any(abs(a - b) <= 1e-4 * max(abs(a), abs(b)) for a, b in zip(srt, srt[1:])):
+            NEAR[0] = True
         order = sorted(set(rsq))
         pos = {v: i for i, v in enumerate(order)}
         out.append(dict(shell=norm_shell(sh), rsq=[[pos[x], 1] for x in rsq]))
@@ -262,6 +270,7 @@ def work(item):
                 continue
             ties = False
             if 'electron_shells' in el and 'electron_shells' in e2:
+                NEAR[0] = False
                 ka, t1 = keyed(el['electron_shells'], bsort)
                 kb, t2 = keyed(e2['electron_shells'], bsort)
                 ties = t1 or t2
@@ -273,7 +282,7 @@ def work(item):
             if got_el != want or got_b != want or got_rev != want:
                 rule = 'false_equal' if want is False else 'false_different'
                 out['bad'].append((rule, 'compare says %s / compare_basis %s / reversed %s, exact comparison says %s' % (got_el, got_b, got_rev, want), w,
-                                   dict(perturbation=kind)))
+                                   dict(perturbation=kind, near_tie=bool(NEAR[0]))))
             out['nt'].append(jdump([label, z, kind]))
         # diff: left minus [part1, part2] must be the shells in neither; left minus itself empty
         if 'electron_shells' in el and len(el['electron_shells']) >= 2:
